@@ -376,7 +376,7 @@ func run(r *h.Run, sc scenario) result {
 			if conn1 != nil {
 				conn1.Peer.Close()
 				// the client must notice on its own: every future resolves (checked below before Close)
-				deadline := time.Now().Add(2 * time.Second)
+				deadline := time.Now().Add(6 * time.Second)
 				for time.Now().Before(deadline) {
 					pending := false
 					fmu.Lock()
@@ -394,7 +394,7 @@ func run(r *h.Run, sc scenario) result {
 				fmu.Lock()
 				for _, ft := range futs {
 					if ft.f != nil && !resolved(ft.f) {
-						fail("future-unresolved-after-connection-end", fmt.Sprintf("the broker closed the connection 2 s ago and the %s future (%s) is still unresolved", ft.op, ft.tag))
+						fail("future-unresolved-after-connection-end", fmt.Sprintf("the broker closed the connection 6 s ago and the %s future (%s) is still unresolved", ft.op, ft.tag))
 						break
 					}
 				}
@@ -405,8 +405,8 @@ func run(r *h.Run, sc scenario) result {
 	}()
 	select {
 	case <-termDone:
-	case <-time.After(4 * time.Second):
-		confirmed, stacks := stuck.Confirm(700*time.Millisecond, srv.Log.Len, "github.com/256dpi/gomqtt/client.(*Client)")
+	case <-time.After(8 * time.Second):
+		confirmed, stacks := stuck.Confirm(time.Second, srv.Log.Len, "github.com/256dpi/gomqtt/client.(*Client)")
 		if confirmed {
 			key := "close-hangs"
 			if strings.Contains(stacks[0], "tomb") && cerr != nil {
